@@ -114,6 +114,16 @@ CHECKS = {
         note="The FST container (blocks, compression, hierarchy entries, time chain) is parsed by the fst-reader dependency: not modelled; covered only by the 33 corpus pairs (hierarchy names/widths, time table, values). "
              "No FST files are generated (no writer was built), so hierarchy-entry kinds, aliases, enum tables and multi-block distribution are covered by corpus files only. convert_timescale is modelled but not in the quick run.",
     ),
+    "C07": dict(
+        technique="Lean 4 proof (refinement of the Waveform signal map to an abstract loaded-set by induction over operation sequences; load_signals = map over sorted distinct ids) + differential load/unload sequences",
+        text="Lean theorems C07_load_signals (SignalSource::load_signals returns each distinct id once, in order, with a content that is a function of the id alone — also for sliced aliases), "
+             "C07_one_entry_per_id, C07_waveform_refines_set (for EVERY sequence of load / load_multi_threaded / unload calls, get_signal is Some(content id) iff id is in the loaded set). "
+             "The real Waveform / SignalSource are driven with random call sequences (duplicates, permutations, empty requests, direct source calls) on generated VCDs, corpus VCD/FST files and GHW files "
+             "with sliced signals; after each call every signal's content is compared with the same signal loaded alone in a fresh waveform.",
+        design_ref="DESIGN.md section 5 / C07",
+        note="The back end contract (one signal per id in request order; rayon's ordered par_iter; for FST that a signal's callbacks do not depend on the filter) is a parameter of the model: trusted and "
+             "exercised by the differential run, not proved. Universes are truncated to the first 24 signals of a file to keep the alone-load oracle affordable.",
+    ),
 }
 
 NOT_YET = "check not built yet in this round (machinery under construction; see DESIGN.md section 10 for the order of work)"
